@@ -4,6 +4,7 @@
   *every* value of `w.fault` (no fault, a fault at any position), i.e. at every crash point.
 -/
 import AnyVecModel.Proofs.Exec
+import AnyVecModel.Props.Hist
 namespace AnyVec
 namespace C06
 open World
@@ -278,6 +279,29 @@ def sampleWorld : World := { vecs := [sampleVec], created := 13, fault := some 2
 example : sampleVec.WF ∧ sampleVec.ids = [10, 11, 12] := by decide
 example : (step { size := 8, align := 8, hasDrop := true } (.clear 0) sampleWorld).1.dropLog = [11, 10] ∧
     (step { size := 8, align := 8, hasDrop := true } (.clear 0) sampleWorld).2 = .panic "injected" := by decide
+
+/-! ### over whole histories -/
+
+/-- **history theorem**: the world invariant (every vector well formed and fully initialised; no
+identity in two places, destroyed twice, or destroyed while visible) survives every core script step
+under *every* fault state `f` — no fault, or a panic at the k-th user-code call for any k — from every
+reachable world; so after a panic the vectors stay usable (the next step again satisfies the theorem). -/
+theorem history_any_fault_core (cfg : Cfg) (w : World) (hr : Hist.Reach cfg w) (op : Op) (f : Option Nat)
+    (hc : Hist.Core op) (hv : Hist.Valid w.vecs op) :
+    (runStep cfg op f w).1.Inv ∧ (runStep cfg op f w).2.notUb ∧ Hist.Reach cfg (runStep cfg op f w).1 :=
+  ⟨(Hist.runStep_inv cfg op f w (Hist.reach_inv_core cfg w hr) hc hv).1,
+   (Hist.runStep_inv cfg op f w (Hist.reach_inv_core cfg w hr) hc hv).2,
+   .step w op f hr hc hv⟩
+
+/-- **history theorem, lying iterators**: whatever length the replacement iterator of a `splice` claims
+(`claim` is the signed difference to what it really yields) and whatever types its items have, under
+every fault state: invariant kept, no memory fault. -/
+theorem history_lying_splice_core (cfg : Cfg) (w : World) (hr : Hist.Reach cfg w) (v : Nat) (lo hi : Bnd) (typed : Bool)
+    (repl : List Src) (claim : Int) (eats : List (End × Sink)) (fin : Fin) (f : Option Nat)
+    (hv : Hist.liveVec w.vecs v) (hrepl : ∀ r ∈ repl, r.Plain) (hc : ∀ p ∈ eats, p.2.Core) :
+    (runStep cfg (.splice v lo hi typed repl claim eats fin) f w).1.Inv ∧
+      (runStep cfg (.splice v lo hi typed repl claim eats fin) f w).2.notUb :=
+  Hist.runStep_inv cfg (.splice v lo hi typed repl claim eats fin) f w (Hist.reach_inv_core cfg w hr) ⟨hrepl, hc⟩ hv
 
 end C06
 end AnyVec
